@@ -214,6 +214,95 @@ fn user_strategies(ev: &mut Ev) {
     ev.add("user_strategy_instantiations", 10);
 }
 
+/// fast path vs general path through the caller's buffer: the same query values as a rank-1
+/// array (fast path, plain buffer) and as rank-2 / rank-3 / dynamic arrays written into
+/// buffers that are regions of interest, stepped or reversed views of larger arrays
+fn general_path_into_buffers(ev: &mut Ev) {
+    use vh::ndarray::{s, Array4, ArrayD, IxDyn};
+    use vh::ndarray_interp::interp1d::Linear;
+    let x = Array1::from(vec![0.0, 1.0, 2.5, 4.0]);
+    let data = Array2::from_shape_fn((4, 3), |(i, j)| (i * 3 + j) as f64 * 0.75 - 2.0);
+    let interp = Interp1DBuilder::new(data).x(x).strategy(Linear::new()).build().unwrap();
+    let vals: Vec<f64> = (0..12).map(|k| (k as f64 * 0.37) % 4.0).collect();
+    let q1 = Array1::from(vals.clone());
+    let fast = interp.interp_array(&q1).unwrap(); // (12, 3)
+    let fast_bits: Vec<u64> = fast.iter().map(|v| v.to_bits()).collect();
+    let q3 = q1.clone().into_shape_with_order((2, 2, 3)).unwrap();
+    let mut id = 9_100_000u64;
+    let mut run = |name: &str, fill: &mut dyn FnMut(&mut Array4<f64>) -> Result<Vec<u64>, String>, ev: &mut Ev| {
+        id += 1;
+        let mut inst = Inst { ev, name: format!("Interp1D<f64, Ix2, owned, Linear> interp_array_into(Ix3) into {name}"), id };
+        inst.begin();
+        let mut big = Array4::<f64>::from_elem((4, 6, 5, 7), -777.0);
+        match guard(|| fill(&mut big)) {
+            Ok(Ok(bits)) => inst.compare("Ix1 (allocating) vs Ix3 into the buffer", &fast_bits, &bits),
+            Ok(Err(e)) => inst.failed("interp_array_into", &e),
+            Err(p) => inst.failed("interp_array_into", &p),
+        }
+    };
+    run("a region of interest (window on query axis 1)", &mut |big| {
+        let mut b = big.slice_mut(s![..2, 1..3, ..3, ..3]);
+        interp.interp_array_into(&q3, b.view_mut()).map_err(|e| e.to_string())?;
+        Ok(b.iter().map(|v| v.to_bits()).collect())
+    }, ev);
+    run("a buffer stepped along query axis 0", &mut |big| {
+        let mut b = big.slice_mut(s![..4;2, ..2, ..3, ..3]);
+        interp.interp_array_into(&q3, b.view_mut()).map_err(|e| e.to_string())?;
+        Ok(b.iter().map(|v| v.to_bits()).collect())
+    }, ev);
+    run("a buffer reversed along query axis 0", &mut |big| {
+        let mut b = big.slice_mut(s![..2;-1, ..2, ..3, ..3]);
+        interp.interp_array_into(&q3, b.view_mut()).map_err(|e| e.to_string())?;
+        Ok(b.iter().map(|v| v.to_bits()).collect())
+    }, ev);
+    run("a window on the lane axis only", &mut |big| {
+        let mut b = big.slice_mut(s![..2, ..2, ..3, 2..5]);
+        interp.interp_array_into(&q3, b.view_mut()).map_err(|e| e.to_string())?;
+        Ok(b.iter().map(|v| v.to_bits()).collect())
+    }, ev);
+    run("a dynamic-dimensional region of interest (IxDyn query)", &mut |big| {
+        let mut b = big.slice_mut(s![1..3, ..2, 1..4, ..3]).into_dyn();
+        interp.interp_array_into(&q3.clone().into_dyn(), b.view_mut()).map_err(|e| e.to_string())?;
+        Ok(b.iter().map(|v| v.to_bits()).collect())
+    }, ev);
+    run("a permuted buffer (query axes stored in another order)", &mut |big| {
+        let mut b = big.slice_mut(s![..2, ..2, ..3, ..3]).permuted_axes([1, 0, 2, 3]);
+        // b has shape (2, 2, 3, 3) again, with the first two strides exchanged
+        interp.interp_array_into(&q3, b.view_mut()).map_err(|e| e.to_string())?;
+        Ok(b.iter().map(|v| v.to_bits()).collect())
+    }, ev);
+    // buffers in which only *some* neighbouring query axes are contiguous with each other: the
+    // last two query axes and the lanes span the whole allocation, the first query axis does not
+    let mut run2 = |name: &str, fill: &mut dyn FnMut(&mut Array4<f64>) -> Result<Vec<u64>, String>, ev: &mut Ev| {
+        id += 1;
+        let mut inst = Inst { ev, name: format!("Interp1D<f64, Ix2, owned, Linear> interp_array_into(Ix3) into {name}"), id };
+        inst.begin();
+        let mut big = Array4::<f64>::from_elem((5, 2, 3, 3), -777.0);
+        match guard(|| fill(&mut big)) {
+            Ok(Ok(bits)) => inst.compare("Ix1 (allocating) vs Ix3 into the buffer", &fast_bits, &bits),
+            Ok(Err(e)) => inst.failed("interp_array_into", &e),
+            Err(p) => inst.failed("interp_array_into", &p),
+        }
+    };
+    run2("every second slab of a larger output (only the first query axis is stepped)", &mut |big| {
+        let mut b = big.slice_mut(s![..4;2, .., .., ..]);
+        interp.interp_array_into(&q3, b.view_mut()).map_err(|e| e.to_string())?;
+        Ok(b.iter().map(|v| v.to_bits()).collect())
+    }, ev);
+    run2("two slabs in reverse order (only the first query axis is reversed)", &mut |big| {
+        let mut b = big.slice_mut(s![1..3;-1, .., .., ..]);
+        interp.interp_array_into(&q3, b.view_mut()).map_err(|e| e.to_string())?;
+        Ok(b.iter().map(|v| v.to_bits()).collect())
+    }, ev);
+    run2("slabs 0 and 3 of a larger output (dynamic dimension)", &mut |big| {
+        let mut b = big.slice_mut(s![..4;3, .., .., ..]).into_dyn();
+        interp.interp_array_into(&q3.clone().into_dyn(), b.view_mut()).map_err(|e| e.to_string())?;
+        Ok(b.iter().map(|v| v.to_bits()).collect())
+    }, ev);
+    let _ = (ArrayD::<f64>::zeros(IxDyn(&[1])),);
+    ev.add("into_buffer_instantiations", 9);
+}
+
 fn main() {
     let args = Args::parse("C19");
     let stratum: u32 = args.extra_u64("stratum").unwrap_or(0) as u32;
@@ -236,6 +325,7 @@ fn main() {
     }
     if args.shard == 0 && !elems.iter().any(|e| e == "none") {
         user_strategies(&mut ev);
+        general_path_into_buffers(&mut ev);
     }
     let insts: Vec<String> = ev.hist.get("instantiation").map(|h| h.keys().cloned().collect()).unwrap_or_default();
     for name in insts.iter().step_by(insts.len() / 10 + 1) {
